@@ -96,6 +96,12 @@ func next() I {
 	return callCounter
 }
 
+// cut returns s[:k:k] for k clamped to the length: an append to it never writes into s.
+func cut[T any](s []T, i I) []T {
+	k := clamp(i, len(s))
+	return s[:k:k]
+}
+
 // sat and at read an element; an empty operand yields zero instead of a panic.
 func sat(s string, i I) byte {
 	if len(s) == 0 {
